@@ -475,7 +475,7 @@ def one_case(ctx, c):
                           witness=dict(wit, got=getattr(cf, "mat", repr(cf)), expected=G), coords=coords)
 
 
-QUICK_TOTAL, THOROUGH_TOTAL = 12000, 480000
+QUICK_TOTAL, THOROUGH_TOTAL = 12000, 320000
 
 
 def run_shard(ctx):
